@@ -16,6 +16,22 @@ Definition i_gcd_form (w : Z) : own -> trepr -> trepr -> result trepr :=
   repr_gcd_form w (prim_gcd_asis gcd_prim_fuel (2 * w)) (prim_gcd_asis gcd_prim_fuel w)
     (i_rem_by_word w) (i_rem_by_dword w) (i_gcd_core w).
 
+(** the same instance with the fuels as parameters (round 4; Forms/FormsGcdClosed.v proves the five kernel
+    contracts for it whenever the fuels suffice: x + y < lf x y, 2 * B^2 <= pf).  Fuel is not part of the
+    code: the oracle runs [i_gcd_form] = this instance with lehmer_fuel / gcd_prim_fuel. *)
+Definition i_gcd_core_f (lf : Z -> Z -> nat) (pf : nat) (w : Z) (a b : list Z) : result (list Z) :=
+  let x := Words.value w a in let y := Words.value w b in
+  rbind (gcd_in_place_gen (lf x y) pf MIN_DWORD_GUESS_LEN w x y)
+        (fun r => Ok (to_words w (length a) (fst r))).
+
+Definition i_gcd_form_f (lf : Z -> Z -> nat) (pf : nat) (w : Z) : own -> trepr -> trepr -> result trepr :=
+  repr_gcd_form w (prim_gcd_asis pf (2 * w)) (prim_gcd_asis pf w)
+    (i_rem_by_word w) (i_rem_by_dword w) (i_gcd_core_f lf pf w).
+
+(** fuels that always suffice (used in statements only; as unary numbers they are not for running) *)
+Definition lf_total (x y : Z) : nat := S (Z.to_nat (x + y)).
+Definition pf_total (w : Z) : nat := Z.to_nat (2 * (Words.B w * Words.B w)).
+
 Example i_gcd_form_nonvacuous :
   i_gcd_form 64 OVR (Large [0; 0; 12]) (Small 18) = Ok (Small 6) /\
   i_gcd_form 64 OVV (Large [0; 0; 12]) (Large [0; 0; 18]) = Ok (Large [0; 0; 6]) /\
